@@ -31,6 +31,14 @@ def handle (toks : List String) : String :=
       | some s => showSeg s
       | none => "none"
     | _, _, _, _ => "bad-op"
+  | "wfseed" :: i1 :: i2 :: cap :: xi :: rest =>
+    let capv : Option (Option Int) := if cap = "-" then some none else (parseInt? cap).map some
+    match parseInt? i1, parseInt? i2, capv, parseRat? xi, takeList parseInt? rest with
+    | some i1, some i2, some capv, some xi, some (ops, []) =>
+      match wfMoveSeed i1 i2 capv ops xi with
+      | some m => s!"{showList toString m.subIntf} | {showSeg m.seg}"
+      | none => "none"
+    | _, _, _, _, _ => "bad-op"
   | "cw" :: i0 :: i1 :: i2 :: wf :: rest =>
     match parseInt? i0, parseInt? i1, parseInt? i2, takeList parseInt? rest with
     | some i0, some i1, some i2, some (ops, []) =>
